@@ -327,8 +327,34 @@ def reorgTo (P : Params) (s : State) (b : Blk) (fork : Option Blk) : State × Re
   | (s2, none) => (s2, .main)
   | (s2, some e) => (s2, .err e)
 
-/-- `connectBestChain`; the node of `b` is already in the index. -/
+/-- `connectBestChain`; the node of `b` is already in the index.  Since repo commit a2015e1 a
+block whose fork point is not found (an ancestor's node lost its parent pointer: `index.DelNode`)
+is refused with ErrParentBlockNoExist before the side-chain branch and before getReorganizeNodes. -/
 def connectBestChain (P : Params) (s : State) (b : Blk) : State × Res :=
+  match s.best with
+  | [] => (s, .err .panic)
+  | tip :: _ =>
+    if b.parent = tip.id then
+      match connectBlock P s b with
+      | (s', none) => (s', .main)
+      | (s', some e) => (s', .err e)
+    else
+      match s.tds tip.id with
+      | none => (s, .err .hashNotExist)
+      | some tiptd =>
+        match s.tds b.parent with
+        | none => (s, .err .parentTdNoExist)
+        | some ptd =>
+          match findFork s b with
+          | none => (s, .err .parentNoExist)
+          | some f =>
+            if b.diff + ptd ≤ tiptd ∨ b.height < s.fin + s.margin then (s, .side)
+            else reorgTo P s b (some f)
+
+/-- `connectBestChain` BEFORE repo commit a2015e1 (kept for the regression witness
+`C27.no_fork_regression_old_connectBestChain`): without a fork point the side-chain branch
+dereferences nil (panic) and the reorganize branch detaches the whole chain. -/
+def connectBestChainOld (P : Params) (s : State) (b : Blk) : State × Res :=
   match s.best with
   | [] => (s, .err .panic)
   | tip :: _ =>
